@@ -61,7 +61,7 @@ pub fn main(tier: Tier, seed: u64) -> i32 {
         // there, then continue in default order.  n=3 only in the thorough tier.
         if *n == 2 || tier.is_thorough() {
             let space = SrvSpace { n: *n, concurrency: 1, policies: pols.clone(), seed: crate::exec::mix(seed, 1500 + ci as u64), msg_policy: MsgPolicy::Eager };
-            let ex = explore(&space, vec![], &coordination_only, &xbudget, if tier.is_thorough() { 8_000 } else { 3_000 }, true);
+            let ex = explore(&space, vec![], &coordination_only, &xbudget, if tier.is_thorough() { 40_000 } else { 3_000 }, true);
             if ex.capped {
                 coord_capped = true;
             }
